@@ -11,7 +11,7 @@ from .common import ToolError, log
 BE = ["FFT64Ref", "FFT64Avx", "NTT120Ref", "NTT120Avx"]
 
 
-def gen_programs(rep, wd, module, cfg, label, keep=0, exact=False, timeout=1800):
+def gen_programs(rep, wd, module, cfg, label, keep=0, exact=False, timeout=1800, always=None):
     out = os.path.join(wd, label + ".progs.ndjson")
     r = common.tlc(module, cfg=cfg, env={"OUT": out}, workers=4, wd=wd, timeout=timeout)
     common.tlc_must(r, "generator " + cfg)
@@ -25,7 +25,9 @@ def gen_programs(rep, wd, module, cfg, label, keep=0, exact=False, timeout=1800)
         if exact:
             row["scr"] = "exact"
     if keep and len(rows) > keep:
-        rows = random.Random(common.seed()).sample(rows, keep)
+        must = [x for x in rows if always and always(x)]
+        rest = [x for x in rows if not (always and always(x))]
+        rows = must + random.Random(common.seed()).sample(rest, max(0, keep - len(must)))
         rows.sort(key=lambda r_: r_["id"])
     common.write_ndjson(out, rows)
     return out, n, len(rows)
